@@ -13,6 +13,12 @@ CLAIMS = {
  "C05": ("history cases of TooDee.tla replayed with a ledger-carrying element type and a zero-sized type; the specification's conservation law (live = array + handle + caller; nothing twice; nothing dead reachable; nothing live at the end) is evaluated after every step", "6/C05"),
  "C06": ("every insert/push transition of the history machine from every reachable shape (index 0..dim+1 + huge, supplied length 0..dim+1) replayed in both build profiles, three element types, three capacity modes, with a red-zone allocator", "6/C06"),
  "C07": ("every remove/pop transition and every drain step from every (shape, index, taken-front, taken-back) state of the history machine replayed against the real crate", "6/C07"),
+ "C08": ("SeqIter.tla/IterMC.tla: rows()/rows_mut() as the ideal double-ended exact-size sequence: TLC explores every (front,back) state x every call x every argument (edges), every call sequence to a depth bound, and random walks, over every receiver; each behaviour is executed on one live real iterator, results compared, the remainder drained and compared, yielded &mut rows written through and the whole root compared", "6/C08-C10"),
+ "C09": ("SeqIter.tla/IterMC.tla: col(c)/col_mut(c) for every column as the ideal indexable sequence, same exploration as C08 incl. [i] on the remaining sequence with huge indices in overflow-unchecked builds", "6/C08-C10"),
+ "C10": ("SeqIter.tla/IterMC.tla: cells()/cells_mut() and the IntoIterator forms on references as the ideal row-major cell sequence, same exploration as C08 (nth arguments within-row, row-crossing, exact multiples, beyond the end, huge)", "6/C08-C10"),
+ "C18": ("Serde.tla/SerdeMC.tla: TLC checks RoundTrip on the document model; every shape is serialised from the real crate with five element types through every serialiser x deserialiser pair (string, bytes, reader, value tree), and every window from view / mutable view", "6/C18"),
+ "C19": ("Serde.tla/SerdeMC.tla: TLC enumerates the document grammar (every subset/order/duplication of fields, dimension tokens incl. 2^32..2^64, negative, fractional, string, null, data lengths around the product, ill-typed and non-array data), checks the visitor design (Layer B) refines the acceptance rule (Layer A), and every document is fed to the real deserialiser through all four transports, plain and with escaped keys", "6/C19"),
+ "C20": ("Ctor.tla/CtorMC.tla: every construction request (6 constructors x dimensions incl. huge and wrap-adversarial x buffer lengths), ==/Hash/clone over all pairs of small arrays, and the conversion transitions of the history machine, executed on the real crate with Copy, owning and zero-sized elements", "6/C20"),
  "C13": ("Access.tla prim group: swap/swap_rows/swap_cols/row_pair_mut/fill with every index pair incl. equal, reversed, out-of-range and huge, on TooDee, TooDeeViewMut at every window and a third-party implementor using only trait defaults", "6/C13"),
  "C14": ("Access.tla copy group: the four copy_from/clone_from operations with sources around the destination size (owned/view/strided) and copy_within with every source rectangle x destination corner, on owned arrays and every window", "6/C14"),
  "C15": ("Access.tla move group: translate_with_wrap with every mid and both flips on every shape up to 6x6 (quick) / 9x9 (thorough) and through every window of small parents; TLC checks bijectivity on the specification, the real root is compared", "6/C15"),
